@@ -200,6 +200,34 @@ Proof.
 Qed.
 Print Assumptions inv_mod_prime.
 
+
+(* member <=> quadratic residue: for p = 2q+1 with q odd, an element of order dividing q is the square of
+   a^((q+1)/2); conversely squares of non-multiples of p have order dividing q (square_member). *)
+Theorem member_is_square : forall p q a : Z, 1 < p -> Z.odd q = true -> 0 < q -> 0 <= a < p ->
+  a ^ q mod p = 1 -> let e := a ^ ((q + 1) / 2) mod p in 0 <= e < p /\ (e ^ 2) mod p = a.
+Proof.
+  intros p q a Hp Hodd Hq Ha H e. split; [apply Z.mod_pos_bound; lia|].
+  subst e. rewrite <- Zpower_mod by lia. rewrite <- Z.pow_mul_r by (try lia; apply Z.div_pos; lia).
+  assert (E : (q + 1) / 2 * 2 = q + 1).
+  { rewrite Z.odd_spec in Hodd. destruct Hodd as [k Hk]. subst q.
+    replace (2 * k + 1 + 1) with ((k + 1) * 2) by ring. rewrite Z.div_mul by lia. reflexivity. }
+  rewrite E. rewrite Z.pow_add_r by lia. rewrite Z.pow_1_r.
+  rewrite <- Z.mul_mod_idemp_l by lia. rewrite H. rewrite Z.mul_1_l. apply Z.mod_small. exact Ha.
+Qed.
+Print Assumptions member_is_square.
+
+Theorem member_iff_qr : forall p q a : Z, prime p -> p = 2 * q + 1 -> Z.odd q = true -> 0 < q -> 1 <= a < p ->
+  (a ^ q mod p = 1 <-> exists e, 0 < e < p /\ (e ^ 2) mod p = a).
+Proof.
+  intros p q a Hp Hpq Hodd Hq Ha. pose proof (prime_ge_2 _ Hp) as H2. split.
+  - intro H. destruct (member_is_square p q a ltac:(lia) Hodd Hq ltac:(lia) H) as [He1 He2].
+    exists (a ^ ((q + 1) / 2) mod p). split; [|exact He2].
+    destruct (Z.eq_dec (a ^ ((q + 1) / 2) mod p) 0) as [E|]; [|lia].
+    rewrite E in He2. rewrite Z.pow_0_l, Z.mod_0_l in He2 by lia. lia.
+  - intros (e & He & Hsq). rewrite <- Hsq. apply square_member; auto. apply not_divide_small. exact He.
+Qed.
+Print Assumptions member_iff_qr.
+
 (** Sanity instances for p = 23, q = 11: 2 is a member, 23 - 2 = 21 is not. *)
 Example ex23 : 2 ^ 11 mod 23 = 1.
 Proof. vm_compute. reflexivity. Qed.
